@@ -49,7 +49,7 @@ def unwrap(x):
 
 class ItemRec:
     __slots__ = ("item", "iid", "put_t", "put_seq", "delay", "ready_t", "ready_key", "status",
-                 "token", "ever_reserved", "putter", "first_ready_eoi")
+                 "token", "ever_reserved", "putter", "first_ready_eoi", "tok_grant_t", "in_stall")
 
     def __init__(self, item, put_t, put_seq, delay, putter):
         self.item = item
@@ -64,6 +64,8 @@ class ItemRec:
         self.ever_reserved = False
         self.putter = putter
         self.first_ready_eoi = None
+        self.tok_grant_t = None
+        self.in_stall = False
 
 
 class TokRec:
@@ -361,6 +363,7 @@ class ShadowStore:
             self.put_seq += 1
             ir = ItemRec(item, self.now(), self.put_seq, info.get("delay"), rec.owner)
             self.delays_log.append(info.get("delay"))
+            ir.tok_grant_t = rec.t_grant
             if id(item) in self.held:
                 self.viol("C02", "duplicate_put", f"{self.kind}:same-object-put-twice", {"item": ir.iid})
             self.held[id(item)] = ir
@@ -527,6 +530,10 @@ class ShadowStore:
         if self.new_grants:
             ng, self.new_grants = self.new_grants, []
             self._check_grants(ng, r)
+        for ob in self.observers:
+            f = getattr(ob, "on_settle", None)
+            if f is not None:
+                f(self)
         ri = getattr(self.store, "reserved_items", None)
         if ri is not None and self.delayed:
             ids = [id(x) for x in ri]
@@ -686,6 +693,33 @@ class ShadowStore:
             self.stats["skip_belt_entry"] += 1
             return None
 
+    def belt_admissible(self):
+        """(hooked, conservative) True only if the belt certainly has to admit an item now: capacity free is
+        checked by the caller; here: last entered item moved >= one item length (+margin), the belt accumulates
+        or nothing waits at its exit, and the head item has not travelled the whole belt."""
+        clear = self.belt_entry_clear()
+        if clear is not True:
+            return False
+        if self.grant["put"]:
+            return False       # one item enters at a time
+        r = self.ready()
+        acc = getattr(self.store, "accumulation_mode_indicator", None)
+        if self.kind == "slotbelt":
+            acc = not getattr(self.store, "noaccumulation_mode_on", False)
+        if not acc and r:
+            return False
+        if self.kind == "belt":
+            return self._belt_head_allows()
+        return True
+
+    def admits_now(self):
+        """True only if a space request issued now would certainly have to be granted at once"""
+        if self.free() <= 0 or self.pend["put"]:
+            return False
+        if self.is_belt:
+            return self.belt_admissible()
+        return True
+
     def eoi(self, now, final=False):
         if self.dead:
             return
@@ -697,19 +731,7 @@ class ShadowStore:
             if self.free() > 0:
                 ok = True
                 if self.is_belt:
-                    clear = self.belt_entry_clear()
-                    r = self.ready()
-                    if clear is not True:
-                        ok = False
-                    else:
-                        acc = getattr(self.store, "accumulation_mode_indicator", None)
-                        if self.kind == "slotbelt":
-                            acc = not getattr(self.store, "noaccumulation_mode_on", False)
-                        if not acc and r:
-                            ok = False
-                        # a belt whose head item has travelled the whole belt length blocks admission
-                        if ok and self.kind == "belt":
-                            ok = self._belt_head_allows()
+                    ok = self.belt_admissible()
                 if ok:
                     head = min(self.pend["put"], key=lambda a: a.key())
                     cond.append((head, "space-free"))
